@@ -360,14 +360,15 @@ func (i InfixExpression) PrettyPrint(out *PrintState) *PrintState {
 		out.Print("(")
 	}
 	i.Left.PrettyPrint(out)
-	if out.Compact {
+	if i.Right == nil {
+		// open ended range a[n:]: nothing follows the colon (a[n:nil] is not the same program: nil is not an index).
 		out.Print(i.Literal())
 	} else {
-		out.Print(" ", i.Literal(), " ")
-	}
-	if i.Right == nil {
-		out.Print("nil")
-	} else {
+		if out.Compact {
+			out.Print(i.Literal())
+		} else {
+			out.Print(" ", i.Literal(), " ")
+		}
 		// Every binary operator parses left associative: a same precedence expression on the right side was
 		// parenthesized in the source and must stay so (a-(b-c) is not a-b-c, a+(b|c) is not a+b|c); only a chain
 		// of + is still printed without them (1+(2+3) as 1+2+3).
